@@ -1,6 +1,7 @@
 package mon
 
 import (
+	"context"
 	"encoding/json"
 	"fmt"
 	"math/rand"
@@ -97,6 +98,11 @@ func c17Case(run *evid.Run, i int) {
 	for k := range h.Steps {
 		if h.Steps[k].Op == "append" && rng.Intn(3) == 0 {
 			h.Steps[k].PC = 16
+		}
+		if h.Steps[k].Op == "append" && h.Steps[k].Payload != "" && rng.Intn(5) == 0 {
+			// payloads are bytes, not text: what is stored must be what was appended
+			h.Steps[k].Payload = []string{"\xde\xad\xbe\xef", "\xff\xfe\x00\x01", "ok\x80\x80tail", "\xc3\x28"}[rng.Intn(4)] + h.Steps[k].Payload
+			run.Count("appends_with_a_payload_that_is_not_text", 1)
 		}
 		if h.Steps[k].Op == "append" && rng.Intn(3) == 0 {
 			h.Steps[k].Pin = true // pinned appends: the pin service of the harness store accepts any identifier
@@ -303,6 +309,57 @@ func c17Case(run *evid.Run, i int) {
 			break
 		}
 	}
+	// the context of an operation ends WHILE its block write is pending at a store that honours contexts (and so drops
+	// the write): the operation must not report success for a block the store does not hold
+	if i%5 == 1 {
+		for r, l := range x.Logs {
+			if l.Len() == 0 {
+				continue
+			}
+			before := hx.Observe(l)
+			ctx, cancel := context.WithCancel(x.W.Ctx)
+			armed := true
+			st.AddStall = func(n int, c cid.Cid) bool {
+				if armed {
+					armed = false
+					return true
+				}
+				return false
+			}
+			st.OnStall = cancel
+			op := []string{"Append", "ToMultihash"}[(i/5)%2]
+			mu.Lock()
+			cur = fmt.Sprintf("%s on r%d whose context ends while the block write is pending", op, r)
+			at := cur
+			mu.Unlock()
+			var hash cid.Cid
+			var err error
+			if op == "Append" {
+				var e iface.IPFSLogEntry
+				if e, err = l.Append(ctx, []byte(fmt.Sprintf("%d.%d/ctx-ends-mid-write", h.Seed, h.Idx)), nil); err == nil {
+					hash = e.GetHash()
+				}
+			} else {
+				hash, err = l.ToMultihash(ctx)
+			}
+			st.AddStall, st.OnStall = nil, nil
+			cancel()
+			run.Count("operations_whose_context_ended_while_the_block_write_was_pending", 1)
+			if err == nil && !st.Has(hash) {
+				run.Violate("C17/failed-write-reported-success", det("op", op, "codec", codec, "fault", "context ended mid-write"), wit(at), "%s returned %s without an error although its context ended while the write was pending and the store does not hold that block", op, hx.Short(hash.String()))
+			}
+			if err != nil {
+				if df := obsEqual(before, hx.Observe(l)); df != "" {
+					run.Violate("C17/failed-append-changed", det("codec", codec, "fault", "context ended mid-write"), wit(at), "%s failed (%v) but changed the log: %s", op, err, df)
+				}
+			}
+			// the replica goes on under a live context: the closure assertion inside the store watches the next write
+			if e, err := l.Append(x.W.Ctx, []byte(fmt.Sprintf("%d.%d/after-ctx-end", h.Seed, h.Idx)), nil); err == nil && codec != "pb" {
+				pubs = append(pubs, &published{Prefix: st.NBlocks(), Kind: "entry-hash", Hash: e.GetHash(), State: hx.Observe(l), Where: at + " +append", Ident: x.Writer[r]})
+			}
+			break
+		}
+	}
 	W := st.NBlocks()
 	run.Count("block_writes", W)
 	run.Count("publications", len(pubs))
@@ -363,6 +420,16 @@ func c17Case(run *evid.Run, i int) {
 				if !model.SameKeys(got.Set, p.State.Set) {
 					run.Violate("C17/reload-entries", d, wit(at), "reloaded %d entries, the state at publication had %d (%s)", len(got.Set), len(p.State.Set), at)
 					continue
+				}
+				for k, e := range got.Set {
+					if pe := p.State.Set[k]; pe != nil && pe.Digest != e.Digest {
+						what := "fields"
+						if pe.Payload != e.Payload {
+							what = fmt.Sprintf("payload (%d bytes at publication, %d bytes reloaded)", len(pe.Payload), len(e.Payload))
+						}
+						run.Violate("C17/reload-content", d, wit(at), "entry %s reloads with other content than it had when the operation returned: %s (%s)", hx.Short(k), what, at)
+						break
+					}
 				}
 				if !model.EqualAsSets(got.Heads, p.State.Heads) {
 					run.Violate("C17/reload-heads", d, wit(at), "reloaded heads differ from the state at publication (%s)", at)
